@@ -97,7 +97,7 @@
          'replay':'c17_zones', 'witness_defines':[], 'witness_vars':['w_n','w_x','w_xm','w_c','w_sm','w_smx','w_pos','w_posm','w_a','w_b','w_pt','w_axis','w_mlen','w_mwt'],
          'claims':'Zones::exclude_with_margins(xmin,xmax,axis) = remove + two margin-weight inserts (each loop cut by the invariant of c17_remove_* / c17_insert_*): the set stays sorted, disjoint and in bounds, offers no point of (xmin,xmax), offers nothing that was not offered before, keeps every point outside [xmin,xmax], and keeps weight sums positive for a non-negative margin weight'}@*/
 /*@unit {'name':'c17_degenerate_axis', 'props':['C17'], 'entry':'h_degenerate', 'kind':'bounded', 'backend':'cadical', 'unwind':9, 'loop_contracts':False, 'defines':['NV=1','CAPV=8','L2_BY_CONTRACT'], 'cost':5,
-         'tiers':['quick'],
+         'tiers':['finding'],
          'replay':'c17_zones', 'witness_defines':[], 'witness_vars':['w_pos','w_a','w_b'],
          'bound':'one interval',
          'claims':'FINDING (fails on the unchanged tree, confirmed natively by replay/c17_zones.cpp; not run in the quick/thorough tiers): on an axis whose bounds coincide (initialise(P,P): limit rectangle of zero width on that axis) remove(a,b) with a < P < b clamps the range to the empty [P,P] and returns, so the point P stays offered: closest() reports cost 0 >= 0 and ShiftCollider::resolve clears the collision flag although the excluded position was chosen.  The other level-2 units assume _pos < _posm.'}@*/
@@ -256,6 +256,7 @@ static void vec_snapshot(const Exclusions *v, const Exclusion *p)
 #ifdef L2_BY_CONTRACT
 Exclusion *g_spare;           /* the block the next growing insert will return (allocated by the harness) */
 bool g_grown;                 /* the storage has moved to the spare block (set by the Vector::insert wrapper) */
+Exclusion *g_last_freed;      /* the block the wrapper passed to free() */
 static Exclusion nondet_excl(void)
 { Exclusion e; e.x = nondet_float(); e.xm = nondet_float(); e.c = nondet_float(); e.sm = nondet_float(); e.smx = nondet_float(); e.open = nondet_bool(); return e; }
 /* Contract application by hand.  Both contracts are functional: the ensures clauses fix the size, the capacity, the
@@ -283,7 +284,7 @@ static Exclusion *Vector_insert_g(Exclusions *v, Exclusion *p, const Exclusion x
             else if (k == idx) nb[k] = x;
             else nb[k] = old[k - 1];
         }
-        free(old);                                                                        /* frees clause: the old block is released */
+        free(old); g_last_freed = old;                                                    /* frees clause: the old block is released */
         v->m_first = nb; v->m_end = nb + 8;
 #ifdef L2_INV
         g_grown = true;
@@ -848,7 +849,7 @@ void h_vec_stubs(void)
         Exclusion *r = Vector_insert_g(v, p, x);
         __CPROVER_assert(VEC_INSERT_POST_SHAPE(v, r), "stub insert: shape clause of the contract");
         __CPROVER_assert(VEC_INSERT_POST_ELEMS(v, x), "stub insert: element clause of the contract");
-        __CPROVER_assert(VEC_INSERT_POST_STORE(v, __CPROVER_r_ok(g_first0, 1) == 0), "stub insert: storage clause of the contract");
+        __CPROVER_assert(VEC_INSERT_POST_STORE(v, g_last_freed == g_first0), "stub insert: storage clause of the contract");
     } else {
         Exclusion *r = Vector_erase_g(v, p);
         __CPROVER_assert(VEC_ERASE_POST_SHAPE(v, r, p), "stub erase: shape clause of the contract");
